@@ -86,5 +86,150 @@ def data_rx(ob, tier):
     return dict(res, verdict="holds")
 
 
+# ---------------------------------------------------------------------------------------
+# Mux::ready — a paused client must not get its session killed by the loop budget
+
+def ready_bits():
+    src = open(mirrun.REPO + "/command/src/ready.rs").read()
+    return {n: int(v, 2) for n, v in re.findall(r"pub const (\w+): Ready = Ready\(0b([01]+)\);", src)}
+
+
+def ready_models(bits):
+    """exact models of the Ready / Readiness bit algebra (command/src/ready.rs, lib/src/lib.rs:
+    the same functions the Kani harness c14::c01_readiness_never_loses_writable decides) so
+    that readiness words are 16-bit values instead of opaque handles"""
+    from ..engine import Val, bv
+
+    def conn_place(ex, env, a):
+        return a["val"].ref if a["val"].ref is not None else "(*%s)" % a["place"]
+
+    def m_readiness(ex, env, node, guard, ev, dest, dty):
+        base = conn_place(ex, env, ev.args[0])
+        ex.kill(env, dest)
+        env[dest] = Val(ex.ctx.sym("ref.rd", 64), 64, ref=base + ".@rd", mut="readiness_mut" in ev.callee)
+        return True
+
+    def word(ex, env, place):
+        return ex.read(env, place + ".0", "u16")
+
+    def m_filter(ex, env, node, guard, ev, dest, dty):
+        r = ev.args[0]["val"].ref
+        if r is None:
+            return False
+        e, i = word(ex, env, r + ".0"), word(ex, env, r + ".1")
+        ex.kill(env, dest)
+        env[dest] = Val(ex.ctx.sym("ready", 64), 64)
+        env[dest + ".0"] = Val(ex.ctx.define("filt", 16, "(bvand %s %s)" % (e.term, i.term)), 16)
+        return True
+
+    def m_test(ex, env, node, guard, ev, dest, dty):
+        r = ev.args[0]["val"].ref
+        if r is None:
+            return False
+        w = word(ex, env, r)
+        name = ev.callee.split("::")[-1]
+        if name == "is_empty":
+            t = "(= %s %s)" % (w.term, bv(0, 16))
+        else:
+            b = bits[{"is_readable": "READABLE", "is_writable": "WRITABLE", "is_error": "ERROR", "is_hup": "HUP"}[name]]
+            t = "(= (bvand %s %s) %s)" % (w.term, bv(b, 16), bv(b, 16))
+        ex.kill(env, dest)
+        env[dest] = Val(ex.ctx.define("rt", "Bool", t), "Bool")
+        return True
+
+    def m_remove(ex, env, node, guard, ev, dest, dty):
+        r = ev.args[0]["val"].ref
+        m = re.search(r"Ready::(\w+)$", ev.args[1]["text"])
+        if r is None or not m or m.group(1) not in bits:
+            return False
+        w = word(ex, env, r)
+        new = Val("(bvand %s %s)" % (w.term, bv(0xFFFF ^ bits[m.group(1)], 16)), 16)
+        ex.store(env, node, guard, r + ".0", new, False)
+        ex.events.append(engine.Event("ready_remove", guard, node, place=r, bit=m.group(1)))
+        return True
+    return [
+        (r"connection::Connection::<.*>::readiness(_mut)?$", m_readiness),
+        (r"Readiness::filter_interest$", m_filter),
+        (r"ready::Ready::(is_empty|is_readable|is_writable|is_error|is_hup)$", m_test),
+        (r"ready::Ready::remove::<.*>$", m_remove),
+    ]
+
+
+HANDLERS = r"connection::Connection::<.*>::(readable|writable|close|try_resume_reading)(::<.*>)?$|::delay_close_for_frontend_flush$|Router::connect"
+
+
+def ready_spin(ob, tier):
+    """One pass of Mux::ready's inner event loop with the client idle (its filtered readiness
+    empty: paused, would-blocked).  Either some connection handler runs (progress) or the loop
+    is left (back to epoll).  A pass that does neither changes nothing, so it repeats until
+    the 10 000-iteration budget closes the session with the response still buffered."""
+    bits = ready_bits()
+    if not all(k in bits for k in ("READABLE", "WRITABLE", "ERROR", "HUP")):
+        return {"verdict": "inconclusive", "why": "Ready bit constants not found: %s" % bits}
+    fn = mirrun.get_fn("lib", "::ready", sig="_1: &mut Mux<Front, L>")
+    ex = engine.Executor(fn, loop_bound=lambda f, h: 1, max_nodes=200000, models=ready_models(bits))
+    ev = ex.run()
+    for i, e in enumerate(ev):
+        e.seq = i
+    q = Q(ex.ctx)
+    res = {"paths": ex.stats["nodes"], "functions": [fn.name]}
+    # the inner loop: the loop nested directly in the outermost one whose body tests the frontend readiness
+    tests = [e for e in ev if e.kind == "call" and e.callee.endswith("Readiness::filter_interest") and len(e.node[1]) == 2
+             and all(i == 0 for _, i in e.node[1])]
+    if not tests:
+        return dict(res, verdict="inconclusive", why="inner loop not found")
+    outer, inner = tests[0].node[1][0][0], tests[0].node[1][1][0]
+
+    def in_pass0(e):
+        c = e.node[1]
+        return len(c) >= 2 and c[0] == (outer, 0) and c[1] == (inner, 0)
+    handlers = [e for e in ev if e.kind == "call" and in_pass0(e) and re.search(HANDLERS, e.callee)]
+    nxt = (inner, ((outer, 0), (inner, 1)))
+    cont = ex.node_guard.get(nxt)
+    front = [k for k in ex.initial if re.match(r"^\(\*_1\)\.\d+\.@rd\.[01]\.0$", k)]
+    fe = [ex.initial[k] for k in front if k.endswith(".@rd.0.0")]
+    fi = [ex.initial[k] for k in front if k.endswith(".@rd.1.0")]
+    press = [e for e in ev if e.kind == "call" and in_pass0(e) and "has_buffer_pressure" in e.callee]
+    if cont is None or len(fe) != 1 or len(fi) != 1 or len(handlers) < 5 or not press:
+        return dict(res, verdict="inconclusive", why="shape: second pass reachable=%s frontend words=%d/%d handler sites=%d pressure tests=%d" % (
+            cont is not None, len(fe), len(fi), len(handlers), len(press)))
+    idle = "(= (bvand %s %s) %s)" % (fe[0].term, fi[0].term, engine.bv(0, 16))
+    silent = [engine.NOT(h.guard) for h in handlers]
+    # backend words of the first backend visited in the first pass
+    bk = sorted(k for k in ex.initial if re.search(r"\.@rd\.[01]\.0$", k) and k not in front)
+    get = [ex.initial[k].term for k in bk] + [p.result.term for p in press if p.result is not None and p.result.sort == "Bool"]
+    from .. import solve
+    v, model, secs, detail = solve.check(ex.ctx.script([cont, idle] + silent, get=get))
+    q.n += 1
+    q.secs += secs
+    wit = [q([cont])[0], q([engine.OR(*[h.guard for h in handlers])])[0]]
+    res["witness"] = "second pass / handler sites reachable: %s; %d handler sites; Ready bits %s" % (wit, len(handlers), bits)
+    res["witness_ok"] = all(w == "sat" for w in wit)
+    res["queries"], res["solver_s"] = q.n, round(q.secs, 2)
+    if v == "inconclusive":
+        return dict(res, verdict="inconclusive", why=detail)
+    if v == "sat":
+        def show(w):
+            return "".join(n[0] if w & b else "-" for n, b in (("R", bits["READABLE"]), ("W", bits["WRITABLE"]), ("E", bits["ERROR"]), ("H", bits["HUP"])))
+        words = {k: model.get(ex.initial[k].term) for k in bk}
+        desc = ", ".join("backend.%s=%s" % ("event" if k.endswith(".@rd.0.0") else "interest", show(w) if isinstance(w, int) else w) for k, w in words.items())
+        pv = [model.get(p.result.term) for p in press if p.result is not None]
+        # what the silent pass may still mutate (must be idempotent for the pass to repeat)
+        cand = {}
+        for e in ev:
+            if e.kind in ("havoc", "write", "ready_remove") and in_pass0(e):
+                cand.setdefault(e.place if e.kind != "ready_remove" else "readiness.event -= %s" % e.bit, []).append(e.guard)
+        muts = sorted(k for k, gs in cand.items() if not re.match(r"^_\d+$", k) and q([cont, idle, engine.OR(*gs)] + silent)[0] == "sat")
+        res["queries"], res["solver_s"] = q.n, round(q.secs, 2)
+        text = ("with the client idle an event-loop pass can run no handler and still not leave the loop (backend hung up / in error "
+                "under buffer pressure keeps the loop alive): the pass repeats unchanged until the iteration budget returns SessionResult::Close")
+        import os
+        rp = mirrun.native_test("c01_slow_client", "")
+        return dict(res, verdict="counterexample", text=text,
+                    model={"backend_words": desc, "has_buffer_pressure": pv, "mutations_on_the_silent_pass": muts},
+                    replay={"reproduced": rp["ran"] and rp["failed"], "path": os.path.join(mirrun.VERIF, "replay/tests/c01_slow_client.rs"), "log": rp["log"]})
+    return dict(res, verdict="holds")
+
+
 def run(ob, tier):
-    return {"data_rx": data_rx}[ob["which"]](ob, tier)
+    return {"data_rx": data_rx, "ready_spin": ready_spin}[ob["which"]](ob, tier)
